@@ -72,6 +72,37 @@ def one(spec, batch, stats, lang=False):
         b.dispose()
 
 
+def one_synthetic(i, R, batch, stats):
+    """a grammar from the library's own random grammar generator (synthetic_grammar.create_arbitrary_grammar)"""
+    from geneticengine.grammar.synthetic_grammar import create_arbitrary_grammar
+    nts = R.randint(1, 4)
+    classes, start = create_arbitrary_grammar(R.randint(0, 10 ** 6), nts, R.randint(0, nts),
+                                              productions_per_non_terminal=lambda rd: rd.randint(1, 3),
+                                              non_terminals_per_production=lambda rd: rd.randint(0, 3))
+    decl = declared_grammar(list(classes), start)
+    considered = [c for c in classes if c is not start]
+    evs = []
+    g0 = None
+    for mode in (False, True):
+        try:
+            with time_limit(5):
+                g = extract_grammar(considered, start, expansion_depthing=mode)
+            evs.append({"e": "analysis", "exc": "", "mode": mode, "impl": impl_grammar(g)})
+            if not mode:
+                g0 = g
+        except Exception as e:
+            evs.append({"e": "analysis", "exc": exc_name(e), "mode": mode, "impl": {"expd": mode}})
+    if g0 is not None:
+        try:
+            with time_limit(5):
+                u = g0.usable_grammar()
+            evs.append({"e": "usable", "exc": "", "impl": impl_grammar(u)})
+        except Exception as e:
+            evs.append({"e": "usable", "exc": exc_name(e), "impl": {"expd": False}})
+    batch.trace(f"synthetic/{i}", evs, {"k": "grammar", "g": decl})
+    stats["events"] += len(evs)
+
+
 def main():
     a = std_args()
     R = rng(a.seed, "c05")
@@ -82,6 +113,8 @@ def main():
     n = 300 if a.tier == "quick" else 6000
     for i, spec in enumerate(GR.family(R, n, FEATS)):
         one(spec, batch, stats, lang=(i % 10 == 0))
+    for i in range(40 if a.tier == "quick" else 800):
+        one_synthetic(i, R, batch, stats)
     batch.traces = finalize(batch.traces)
     paths = batch.shards(a.out, a.shards)
     write_summary(a.out, {"batches": paths, "traces": len(batch.traces), "events": stats["events"]})
